@@ -471,8 +471,8 @@ class ChirpZTransformExecutor:
 
         m, n = ary.shape
         M, N = (int(s) for s in samples_out)  # python ints: numpy integers wrap in the index arithmetic
-        alphay = float(1/(m*Q[0]))  # python floats: a numpy float32 Q must not drag the
-        alphax = float(1/(n*Q[1]))  # basis arithmetic (and the cached bases) to single precision
+        alphay = 1/(m*float(Q[0]))  # python floats: a numpy float32 Q must not drag the chirp
+        alphax = 1/(n*float(Q[1]))  # constants (and the cached bases) to single precision
         # alphay, alphax = Q
 
         # slightly different notation to Jurling
